@@ -357,9 +357,19 @@ def run_acq(case):
     lo = np.array([b[0] for b in bnds])
     hi = np.array([b[1] for b in bnds])
     nev = 0
-    for n in case['ns']:
+    refused = 0
+    ns = list(case['ns'])
+    if cls == 'RandMaxVar':
+        ns += [12, 20]       # more points than the chain keeps after its warm-up (20 samples, 10 of them warm-up)
+    for n in ns:
         for t in (0, 3):
-            x = np.asarray(acq.acquire(n, t))
+            try:
+                x = np.asarray(acq.acquire(n, t))
+            except ValueError:
+                if cls == 'RandMaxVar' and n > 10:
+                    refused += 1        # a request that cannot be served may be refused; it may not be answered short
+                    continue
+                raise
             nev += 1
             what = {'case': case, 'n': n, 't': t}
             if x.shape != (n, dim):
@@ -384,7 +394,7 @@ def run_acq(case):
             if not np.allclose(g, num, rtol=1e-4, atol=1e-7 * (1 + np.abs(num).max())):
                 return bad('C11:acquisition-gradient-differs-from-derivative:%s' % cls,
                            {'case': case, 'x': x.tolist(), 'got': g.tolist(), 'numeric': num.tolist()})
-    r = ok(outcome=digest((cls, case['bounds'], case['prior'])))
+    r = ok(outcome=digest((cls, case['bounds'], case['prior'])), acquire_requests_refused=refused)
     r.update(evals=nev, distinct=nev)
     return r
 
